@@ -647,8 +647,9 @@ def refine_droplet(
         vmax = np.max(data_mask)
     vrng = vmax - vmin
 
-    if adjust_values:
-        # fit intensities in addition to all droplet parameters
+    if adjust_values and vrng != 0:
+        # fit intensities in addition to all droplet parameters (which is only possible
+        # if the image is not homogeneous in the region around the droplet)
 
         # add vmin and vrng as separate fitting parameters
         parameters = np.r_[data_flat[free], vmin, vrng]
